@@ -249,6 +249,9 @@ class Labware:
         """
         wells = np.array(wells).flatten("F")
         volumes = np.array(volumes).flatten("F")
+        if volumes.dtype.kind == "f":
+            # half/single precision volumes would drag the mixing arithmetic into their own type
+            volumes = volumes.astype(float)
         if len(volumes) == 1:
             volumes = np.repeat(volumes, len(wells))
         assert len(volumes) == len(wells), "Number of volumes must equal the number of wells"
